@@ -54,7 +54,7 @@ class SeOp(Op):
     name = "se"
     family = "se_map"
 
-    MUT = ("setitem", "delitem", "pop", "popitem", "setdefault", "update", "clear", "assign", "attr_add", "attr_discard")
+    MUT = ("setitem", "delitem", "pop", "popitem", "setdefault", "update", "clear", "assign", "attr_add", "attr_discard", "move")
     PURE = ("getitem", "get", "contains", "len", "iter", "keys", "values", "items", "eq")
 
     def _specs(self, op):
@@ -130,6 +130,11 @@ class SeOp(Op):
                 def fn():
                     B.symbolic_expressions = d
 
+        elif m == "move":
+
+            def fn():
+                se[a[1]] = se.pop(a[0])  # the very same expression object, at another offset
+
         elif m in ("attr_add", "attr_discard"):
             A = w.g.SymbolicExpression.Attribute
             x = A[a[1]] if isinstance(a[1], str) else a[1]
@@ -168,7 +173,7 @@ class SeOp(Op):
                     out.value = [canon_val(w, e) for e in r]
                 elif m == "items":
                     out.value = [[k, canon_val(w, e)] for k, e in r]
-                elif m in ("setitem", "delitem", "update", "clear", "assign", "attr_add", "attr_discard"):
+                elif m in ("setitem", "delitem", "update", "clear", "assign", "attr_add", "attr_discard", "move"):
                     out.value = None
                 else:
                     out.value = r
@@ -179,6 +184,20 @@ class SeOp(Op):
         D = n.a["se"]
         m, a = op["method"], op.get("args", [])
         exp = None
+        if op.get("junk_key"):
+            from .core import EndOfDomain
+
+            # keys are offsets; a key of another type is outside every statement (a mapping that
+            # iterates by offset cannot take it). Taken -> the run ends; refused -> nothing may
+            # have changed, and every view of the mapping must still agree with every other.
+            w.counters["probe:se_junk_key_" + ("taken" if out.kind == "ok" else "refused")] += 1
+            if out.kind == "ok":
+                raise EndOfDomain()
+            se = w.objs[op["bi"]].symbolic_expressions
+            views = {"len": len(se), "iter": len(list(se)), "items": len(list(se.items())), "keys": len(list(se.keys())), "values": len(list(se.values()))}
+            if len(set(views.values())) != 1 or views["len"] != len(D) or any(k not in se for k in D) or a[0] in se:
+                w.violate(C16, "se:inconsistent_after_refusal", "%s.symbolic_expressions after the refused %s(%r, ...): views %r, model has %d entries, refused key present: %r" % (op["bi"], m, a[0], views, len(D), a[0] in se))
+            return Exp("any")
         try:
             if m == "setitem":
                 D[a[0]] = [norm_spec(a[1])]
@@ -234,6 +253,10 @@ class SeOp(Op):
                     D.clear()
                     for k, s in a[0]:
                         D[k] = [norm_spec(s)]
+                val = None
+            elif m == "move":
+                cell = D.pop(a[0])
+                D[a[1]] = cell
                 val = None
             elif m in ("attr_add", "attr_discard"):
                 cell = D[a[0]]  # shared with every mapping holding this expression object
